@@ -5,6 +5,10 @@ ROOT = os.path.dirname(os.path.dirname(os.path.abspath(__file__)))
 
 # id -> (level, technique, level text, level note, design ref)
 CLAIMED = {
+ "C02": ("exploration", "runtime monitoring: independent format decoder (specreader, written from the Parquet specification) validating every structural invariant of the produced bytes and comparing decoded (value,r,d) streams with a Dremel reference model",
+         "Held on every explored file: 8 production modes (typed/reflect writers, WriteRowGroup from buffers and files incl. copy and re-encode paths, SortingWriter, ColumnWriters, Reset reuse, concurrent row groups) x catalogue types x option matrix; ~50 invariants (offsets, sizes, counts, CRC, page/row boundaries, offset index, column index lengths, encoding stats, size statistics, bloom filter header) evaluated and counted per run; decoded streams equal the model of the input. Sampling: exploration.",
+         "Trusted: specreader (validated on the third-party parquet-testing files in /repo/testdata: identical streams to the library on all of them), klauspost/andybalholm decompressors called directly. Maps hold <=1 entry.",
+         "DESIGN.md §4 C02"),
  "C04": ("exploration", "runtime monitoring: round-trip + independent spec decoder oracle over PRNG value sequences with dirty reused dst buffers; offline cross-build digest join (std / purego / AVX-disabled)",
          "Held on every explored (encoding, kind, sequence, dst history) case: library decode == input, independent decoder (written from the format spec) == input, and sha256 of encoded and decoded bytes identical across the assembly, purego and AVX-disabled variants. Unbounded input space sampled at block/miniblock/8-group boundaries: exploration.",
          "Trusted: specreader's decoders (validated against the parquet-testing files). RLE run values wider than the bit width are masked and counted (leniency).",
